@@ -106,6 +106,18 @@ impl Value
 	}
 
 
+	/// Whether the two values are the same, including the size
+	/// of integers (which `==` does not look at).
+	pub fn is_identical(&self, other: &Value) -> bool
+	{
+		match (self, other)
+		{
+			(Value::Integer(a), Value::Integer(b)) => a.is_identical(b),
+			_ => self == other,
+		}
+	}
+
+
 	pub fn should_propagate(&self) -> bool
 	{
 		match self
